@@ -112,8 +112,9 @@ pub(crate) fn validate(input: &DataType) -> Result<()> {
                 validate_variant_fields(v, attrs, &type_paths, &mut errors);
 
                 for (data_type_attr, kind, _) in data_type_attrs_by_kind.iter().filter(|(x, kind, _)| matches!(kind, Kind::OwnedInto | Kind::RefInto) && x.quick_return.is_none()) {
-                    if !v.unit {
-                        let type_hint = v.attrs.type_hint(&data_type_attr.ty).map_or(TypeHint::Unspecified, |x| x.type_hint);
+                    let type_hint = v.attrs.type_hint(&data_type_attr.ty).map_or(TypeHint::Unspecified, |x| x.type_hint);
+                    // a unit variant without a type hint maps to a unit variant: nothing is written there
+                    if !v.unit || type_hint != TypeHint::Unspecified {
                         let ghosts = v.attrs.ghosts_attrs.iter().find(|x| x.applicable_to[kind] && x.attr.container_ty.as_ref() == Some(&data_type_attr.ty))
                             .or_else(|| v.attrs.ghosts_attrs.iter().find(|x| x.applicable_to[kind] && x.attr.container_ty.is_none())).map(|x| &x.attr);
                         validate_ghost_entry_forms(ghosts, v.named_fields, type_hint, None, &data_type_attr.ty, &mut errors);
